@@ -133,4 +133,14 @@ TEXT = {
  'note': 'Trusted: testing/synctest; the per-operation virtual timestamps recorded by the universal client.',
  'technique': 'property-based testing (rapid) in synctest bubbles: generated cancellation/expiry instants relative to operation progress; code-rule oracle per '
               'operation, deadlock and leak detection'},
+    'C13': {'text': 'Exploration by stress under the race detector: generated plans of up to 16 goroutines × 8 calls with pairwise-distinct self-describing payloads over '
+         'one shared handler set and one shared client per configuration, on the in-memory transport and on real loopback sockets (h2c); bidi calls send and '
+         'receive from separate goroutines. Any cross-talk, stale pooled buffer (poison hook) or corrupted retained value shows up as a payload/header/error '
+         'mismatch against the result computed for the call alone; a data race whose stack includes a connect-go frame is reported as a violation with the '
+         'plan and the race log as artefacts.',
+ 'design_ref': 'DESIGN.md §5 C13',
+ 'note': 'Binary built with -race -tags verif. A race report whose stacks are entirely harness frames is a harness bug (exit 2). Watchdog expiry is exit 2, '
+         'never a violation.',
+ 'technique': 'property-based testing (rapid) of concurrent call plans under the Go race detector with a buffer-poisoning hook: differential against the '
+              'sequential result of each call'},
 }
